@@ -576,6 +576,39 @@ class Interp:
                         return ('regex', e.id, mod_.fold(node_.args[0], ''), mod_.fold(node_.args[1], '') if len(node_.args) > 1 else 0)
                     except Exception:      # pylint: disable=broad-except
                         pass
+            for mod_ in (h.module.mods if hasattr(h.module, 'mods') else [h.module]):
+                node_ = mod_.const_nodes.get('', {}).get(e.id)
+                # a named-tuple type defined at module level, and a module-level instance of one built from constants
+                if isinstance(node_, ast.Call) and norm(node_.func) in ('collections.namedtuple', 'namedtuple') and len(node_.args) == 2 and not node_.keywords:
+                    try:
+                        fields_ = mod_.fold(node_.args[1], '')
+                        tname_ = mod_.fold(node_.args[0], '')
+                    except Exception:      # pylint: disable=broad-except
+                        continue
+                    if isinstance(fields_, str):
+                        fields_ = fields_.replace(',', ' ').split()
+                    return ('namedtuple', tname_, tuple(fields_))
+                if isinstance(node_, ast.Call) and isinstance(node_.func, ast.Name) and node_.func.id != e.id \
+                        and isinstance(mod_.const_nodes.get('', {}).get(node_.func.id), ast.Call) \
+                        and norm(mod_.const_nodes[''][node_.func.id].func) in ('collections.namedtuple', 'namedtuple') \
+                        and all(isinstance(a_, ast.Constant) for a_ in node_.args) and all(isinstance(k_.value, ast.Constant) for k_ in node_.keywords):
+                    nt_ = self.ev(ast.copy_location(ast.Name(id=node_.func.id, ctx=ast.Load()), e), {}, None)
+                    return self.apply(nt_, [a_.value for a_ in node_.args], {k_.arg: k_.value.value for k_ in node_.keywords})
+            for mod_ in (h.module.mods if hasattr(h.module, 'mods') else [h.module]):
+                node_ = mod_.const_nodes.get('', {}).get(e.id)
+                # module-level slice(...) and struct.Struct(...) objects built from constants
+                if isinstance(node_, ast.Call) and norm(node_.func) == 'slice' and 1 <= len(node_.args) <= 3 and not node_.keywords:
+                    try:
+                        return slice(*[mod_.fold(a_, '') for a_ in node_.args])
+                    except Exception:      # pylint: disable=broad-except
+                        pass
+                if isinstance(node_, ast.Call) and norm(node_.func) in ('struct.Struct', 'Struct') and len(node_.args) == 1 and not node_.keywords:
+                    try:
+                        fmt_ = mod_.fold(node_.args[0], '')
+                    except Exception:      # pylint: disable=broad-except
+                        fmt_ = None
+                    if isinstance(fmt_, (str, bytes)):
+                        return ('struct', fmt_)
             if e.id in h.module.consts.get('', {}) and isinstance(h.module.consts[''][e.id], dict):
                 d_ = h.new_dict()
                 for k_, v_ in h.module.consts[''][e.id].items():
@@ -624,6 +657,21 @@ class Interp:
                 return (l | r) if isinstance(e.op, ast.BitOr) else (l & r)
         if isinstance(e, ast.Attribute):
             base = self.ev(e.value, env, cls)
+            if base == ('super',) and cls and isinstance(env.get('self'), Ref) and 'super' not in h.hooks:
+                # super().m inside a method of class `cls`: m of the next class in the method resolution order of the object, bound to it
+                me_ = env['self']
+                oc_ = h.objs[me_.name]['__class__']
+                mro_ = h.module.mro(oc_) if oc_ in h.module.classes else []
+                after_ = mro_[mro_.index(cls) + 1:] if cls in mro_ else []
+                for c_ in after_:
+                    home_ = h.module._home(c_) if hasattr(h.module, '_home') else h.module
+                    fn_ = home_.funcs.get('%s.%s' % (c_, e.attr)) if home_ is not None else None
+                    if fn_ is not None:
+                        return Closure(fn_.node, {}, me_, c_)
+                raise AnalysisError('heap model: super().%s not found above %s' % (e.attr, cls))
+            if isinstance(base, tuple) and len(base) == 2 and base[0] == 'class' and base[1] in ('str', 'bytes') and base[1] not in h.module.classes \
+                    and not e.attr.startswith('_') and callable(getattr(str if base[1] == 'str' else bytes, e.attr, None)):
+                return ('unboundmethod', base[1], e.attr)           # str.isspace, str.lower ... as a value (a key function)
             if isinstance(base, tuple) and base[0] == 'class':
                 fn = h.module.method(base[1], e.attr)
                 if fn is None:
@@ -641,6 +689,14 @@ class Interp:
                 return ('partial', ('hook', '#contains'), [base], {})       # the membership test of a builtin container, as a value
             if isinstance(base, tuple) and base and base[0] == 'regex':
                 return ('regexmethod', base, e.attr)
+            if isinstance(base, tuple) and len(base) == 2 and base[0] == 'struct':
+                import struct as _struct
+                if e.attr == 'size':
+                    return _struct.calcsize(base[1])
+                if e.attr == 'format':
+                    return base[1]
+                if e.attr in ('unpack', 'unpack_from', 'pack'):
+                    return ('structmethod', base[1], e.attr)
             if isinstance(base, tuple) and base and base[0] == 'record' and e.attr in base[2]:
                 return base[3][base[2].index(e.attr)]
             if isinstance(base, SStr):
@@ -650,9 +706,14 @@ class Interp:
                 base = base.spelling      # text methods of a case-insensitive string work on its spelling
             if isinstance(base, str) and not e.attr.startswith('_') and callable(getattr(str, e.attr, None)):
                 return ('strmethod', base, e.attr)          # a method of a decided text: CPython's own str decides
+            if isinstance(base, bytes) and not e.attr.startswith('_') and callable(getattr(bytes, e.attr, None)):
+                return ('strmethod', base, e.attr)          # ... and of decided bytes: CPython's own bytes decides
             if e.attr == '__class__' and isinstance(base, Ref) and h.objs[base.name]['__class__'] in h.module.classes:
                 return ('class', h.objs[base.name]['__class__'])
-            v = h.getattr(base, e.attr, cls)
+            if isinstance(base, Ref) and h.objs[base.name]['__class__'] in ('list', 'dict') and isinstance(e.ctx, ast.Load) and e.attr in (
+                    'append', 'extend', 'insert', 'update', 'setdefault', 'get', 'pop', 'remove', 'add', 'discard', 'clear', 'keys', 'values', 'items', 'index', 'count'):
+                return ('boundmethod', base, e.attr)        # a method of a builtin container taken as a value (`add = xs.append`)
+            v = self.obj_getattr(base, e.attr, cls)
             if isinstance(v, Closure) and isinstance(v.node, ast.FunctionDef) and any(norm(d) == 'property' for d in v.node.decorator_list):
                 return self.call(v, [])
             if isinstance(v, tuple) and len(v) == 4 and v[0] == 'property' and isinstance(base, Ref):
@@ -691,6 +752,8 @@ class Interp:
                 res = l in r
                 return res if isinstance(op, ast.In) else not res
             if isinstance(op, (ast.In, ast.NotIn)) and isinstance(r, str) and isinstance(l, str):
+                return (l in r) if isinstance(op, ast.In) else (l not in r)
+            if isinstance(op, (ast.In, ast.NotIn)) and isinstance(r, bytes) and isinstance(l, (bytes, int)) and not isinstance(l, bool):
                 return (l in r) if isinstance(op, ast.In) else (l not in r)
             if isinstance(op, (ast.In, ast.NotIn)) and (h.is_list(r) or isinstance(r, (list, tuple))):
                 items = h.items(r) if h.is_list(r) else list(r)
@@ -745,6 +808,20 @@ class Interp:
             l, r = self.ev(e.left, env, cls), self.ev(e.right, env, cls)
             if isinstance(l, str):
                 return self.sym_format_percent(l, r)
+        if isinstance(e, ast.BinOp) and isinstance(e.op, (ast.Mod, ast.FloorDiv, ast.Mult, ast.Pow, ast.LShift, ast.RShift)):
+            # integer arithmetic on decided numbers (and repetition of a decided text / list by a decided count)
+            l, r = self.ev(e.left, env, cls), self.ev(e.right, env, cls)
+            if isinstance(l, int) and isinstance(r, int) and not isinstance(l, bool) and not isinstance(r, bool):
+                if isinstance(e.op, (ast.Mod, ast.FloorDiv)) and r == 0:
+                    raise Raised('ZeroDivisionError', h.version, e.lineno)
+                if isinstance(e.op, ast.Pow) and (r < 0 or r > 64):
+                    raise AnalysisError('heap model: exponent %r' % r)
+                import operator as _op
+                return {ast.Mod: _op.mod, ast.FloorDiv: _op.floordiv, ast.Mult: _op.mul, ast.Pow: _op.pow, ast.LShift: _op.lshift, ast.RShift: _op.rshift}[type(e.op)](l, r)
+            if isinstance(e.op, ast.Mult) and isinstance(l, str) and isinstance(r, int) and not isinstance(r, bool) and r <= 4096:
+                return l * r
+            if isinstance(e.op, ast.Mult) and isinstance(r, str) and isinstance(l, int) and not isinstance(l, bool) and l <= 4096:
+                return l * r
         if isinstance(e, ast.Lambda):
             return Closure(e, dict(env), None, cls)
         if isinstance(e, (ast.GeneratorExp, ast.ListComp, ast.DictComp, ast.SetComp)) and not any(g.is_async for g in e.generators):
@@ -778,6 +855,11 @@ class Interp:
         if isinstance(e, ast.Subscript):
             base = self.ev(e.value, env, cls)
             key = self.ev(e.slice, env, cls)
+            if isinstance(base, bytes) and isinstance(key, (int, slice)) and not isinstance(key, bool):
+                try:
+                    return base[key]            # decided bytes: a cut is bytes, one position its number
+                except IndexError:
+                    raise Raised('IndexError', h.version, e.lineno)
             if isinstance(base, SStr) or (isinstance(base, str) and isinstance(key, (int, slice))):
                 try:
                     r_ = symstr.lift(base).subscript(key)
@@ -790,6 +872,11 @@ class Interp:
                 if fac_ is not None and not h.dict_has(base, key):
                     # collections.defaultdict: a read of a missing key stores the factory's product
                     h.dict_set(base, key, self.call_value(fac_, [], e))
+                sub_ = h.objs[base.name].get('#subclass')
+                if sub_ is not None and not h.dict_has(base, key):
+                    miss_ = h.module.method(sub_, '__missing__')
+                    if miss_ is not None:
+                        return self.call(Closure(miss_.node, {}, base, miss_.cls), [key])     # d[key] of a dict subclass: __missing__ answers
                 return h.dict_get(base, key, e.lineno)
             if isinstance(base, str) and isinstance(key, str):
                 raise Raised('TypeError', h.version, e.lineno)          # string indices must be integers
@@ -924,7 +1011,7 @@ class Interp:
             return list(r_)
         if isinstance(fn, ast.Name) and fn.id == 'ord' and 'ord' not in env and len(args) == 1 and not kwargs:
             t_ = args[0].concrete() if isinstance(args[0], SStr) else args[0]
-            if isinstance(t_, str) and len(t_) == 1:
+            if isinstance(t_, (str, bytes)) and len(t_) == 1:
                 return ord(t_)
             raise AnalysisError('heap model: ord() of %r' % (args[0],))
         if isinstance(fn, ast.Name) and fn.id == 'chr' and 'chr' not in env and len(args) == 1 and not kwargs and isinstance(args[0], int):
@@ -942,6 +1029,22 @@ class Interp:
             sl = slice(*[a for a in args[1:]]) if len(args) > 2 else slice(args[1])
             return items[sl]
         if norm(fn) in ('itertools.dropwhile', 'dropwhile', 'itertools.takewhile', 'takewhile') and len(args) == 2 and not kwargs and norm(fn).split('.')[0] not in env:
+            if isinstance(args[1], PyIter):
+                # over a shared iterator: items are taken one by one; the first item the predicate refuses is consumed as well (takewhile
+                # drops it, dropwhile hands it out) and the rest stays in the iterator for whoever reads it next
+                it_ = args[1]
+                taken_ = []
+                while it_.pos < len(it_.items):
+                    x_ = it_.items[it_.pos]
+                    it_.pos += 1
+                    if not self.truth(self.apply(args[0], [x_])):
+                        if norm(fn).endswith('dropwhile'):
+                            rest_ = [x_] + it_.items[it_.pos:]
+                            it_.pos = len(it_.items)
+                            return rest_
+                        return taken_
+                    taken_.append(x_)
+                return taken_ if norm(fn).endswith('takewhile') else []
             items_ = self.seq(args[1])
             k_ = 0
             while k_ < len(items_) and self.truth(self.apply(args[0], [items_[k_]])):
@@ -960,7 +1063,9 @@ class Interp:
                 if not isinstance(ml, int) or isinstance(ml, bool) or ml < 0:
                     raise AnalysisError('heap model: deque(maxlen=%r)' % (ml,))
                 items = items[len(items) - ml:] if ml else []
-                return tuple(items)         # read-only in the model: a later append (which would evict) is not modelled and fails closed
+                q_ = h.new_list(list(items))
+                h.objs[q_.name]['#maxlen'] = ml          # append / extend keep the bound (items fall out on the left); appendleft is not modelled
+                return q_
             return h.new_list(list(items))
         if norm(fn) in ('operator.itemgetter', 'itemgetter') and len(args) == 1 and not kwargs and norm(fn).split('.')[0] not in env:
             return ('itemgetter', args[0])
@@ -992,6 +1097,24 @@ class Interp:
             r = h.hooks['.' + fn.attr](self, [base] + args, kwargs)
             if r is not NotImplemented:
                 return r
+        if norm(fn) in ('io.StringIO', 'StringIO') and norm(fn).split('.')[0] not in env and len(args) <= 1 and not kwargs:
+            # a text buffer of the model: what is written to it, in order (read back with getvalue())
+            return h.alloc('#StringIO', {'buf': args[0] if args else ''})
+        if isinstance(fn, ast.Attribute) and fn.attr in ('write', 'getvalue', 'close') and isinstance(fn.value, (ast.Name, ast.Attribute)):
+            b_ = self.ev(fn.value, env, cls)
+            if isinstance(b_, Ref) and h.objs[b_.name]['__class__'] == '#StringIO':
+                o_ = h.objs[b_.name]
+                if fn.attr == 'write' and len(args) == 1 and isinstance(args[0], (str, SStr)):
+                    h.touch(b_.name)
+                    o_['buf'] = (symstr.lift(o_['buf']) + symstr.lift(args[0])) if (isinstance(o_['buf'], SStr) or isinstance(args[0], SStr)) else o_['buf'] + args[0]
+                    c_ = o_['buf'].concrete() if isinstance(o_['buf'], SStr) else o_['buf']
+                    o_['buf'] = c_ if c_ is not None else o_['buf']
+                    return None
+                if fn.attr == 'getvalue' and not args:
+                    return o_['buf']
+                if fn.attr == 'close' and not args:
+                    return None
+                raise AnalysisError('heap model: StringIO.%s(%r)' % (fn.attr, args))
         if isinstance(fn, ast.Name) and fn.id in h.opaque_ctors:
             return h.alloc(fn.id, {'text': args[0] if args else None, 'parent_element': None})
         if isinstance(fn, ast.Name) and fn.id == 'isinstance' and len(e.args) == 2:
@@ -1036,6 +1159,30 @@ class Interp:
                 for k_, v_ in pairs:
                     h.dict_set(d_, k_, v_)
             return d_
+        if isinstance(fn, ast.Name) and fn.id in ('getattr', 'hasattr') and fn.id not in env and len(args) >= 2 and isinstance(args[0], tuple) and len(args[0]) == 4 \
+                and args[0][0] == 'record' and isinstance(args[1], (str, SStr)):
+            # a field of a named tuple under a computed (but decided) name
+            nm_ = args[1].concrete() if isinstance(args[1], SStr) else args[1]
+            if nm_ is None:
+                raise AnalysisError('heap model: attribute name is not decided: %s' % norm(e)[:60])
+            if nm_ in args[0][2]:
+                return True if fn.id == 'hasattr' else args[0][3][args[0][2].index(nm_)]
+            if fn.id == 'hasattr':
+                return nm_ in ('_replace', '_asdict', '_fields', 'count', 'index')
+            if len(args) == 3:
+                return args[2]
+            raise Raised('AttributeError', h.version, e.lineno)
+        if isinstance(fn, ast.Attribute) and fn.attr in ('_replace', '_asdict') and not args:
+            b_ = self.ev(fn.value, env, cls)
+            if isinstance(b_, tuple) and len(b_) == 4 and b_[0] == 'record':
+                if fn.attr == '_asdict':
+                    d_ = h.new_dict()
+                    for k_, v_ in zip(b_[2], b_[3]):
+                        h.dict_set(d_, k_, v_)
+                    return d_
+                if any(k_ not in b_[2] for k_ in kwargs):
+                    raise Raised('ValueError', h.version, e.lineno)         # namedtuple._replace: unexpected field names
+                return ('record', b_[1], b_[2], tuple(kwargs.get(k_, v_) for k_, v_ in zip(b_[2], b_[3])))
         if isinstance(fn, ast.Name) and fn.id in ('getattr', 'setattr', 'hasattr') and fn.id not in env and args and isinstance(args[0], Ref) \
                 and len(args) >= 2 and isinstance(args[1], (str, SStr)):
             # attribute access under a computed (but decided) name; written names are already mangled
@@ -1058,18 +1205,22 @@ class Interp:
                     return False
             if fn.id == 'getattr':
                 try:
-                    return h.getattr(args[0], nm_, None)
+                    return self.obj_getattr(args[0], nm_, None)
                 except AnalysisError:
                     if len(args) == 3:
                         return args[2]
                     raise Raised('AttributeError', h.version, e.lineno)
+                except Raised as x_:
+                    if len(args) == 3 and x_.exc == 'AttributeError':
+                        return args[2]
+                    raise
             _ = o_
         if isinstance(fn, ast.Name) and fn.id in ('bool',) and len(args) == 1:
             return self.truth(args[0])
         if isinstance(fn, ast.Name) and fn.id == 'int' and 'int' not in env and 'int' not in h.hooks and len(args) == 1 and not kwargs \
-                and isinstance(args[0], (str, int)) and not isinstance(args[0], bool):
+                and isinstance(args[0], (str, int, bytes)) and not isinstance(args[0], bool):
             try:
-                return int(args[0])          # int() of a decided text / number
+                return int(args[0])          # int() of a decided text / number / bytes
             except ValueError:
                 raise Raised('ValueError', h.version, e.lineno)
         if norm(fn) in ('re.findall', 're.split', 're.match', 're.search', 're.fullmatch', 're.sub') and getattr(h, 'native_regex', False) \
@@ -1182,8 +1333,12 @@ class Interp:
                 out_.append(r_)
             raise AnalysisError('heap model: iter(callable, sentinel) does not end')
         if isinstance(fn, ast.Name) and fn.id in ('list', 'tuple', 'iter') and len(args) == 1:
+            if fn.id == 'iter' and isinstance(args[0], PyIter):
+                return args[0]              # iter() of an iterator is the iterator
             items = self.seq(args[0])
-            return h.new_list(items) if fn.id == 'list' else (tuple(items) if fn.id == 'tuple' else items)
+            if fn.id == 'iter':
+                return PyIter(items)        # ONE position shared by everybody who reads from it (an outer and an inner loop over the same stream)
+            return h.new_list(items) if fn.id == 'list' else tuple(items)
         if isinstance(fn, ast.Name) and fn.id == 'len' and len(args) == 1 and isinstance(args[0], SStr):
             n = args[0].length()
             return n.const if not n.terms else n
@@ -1250,20 +1405,33 @@ class Interp:
             return [self.apply(args[0], [x]) for x in self.seq(args[1])]
         if isinstance(fn, ast.Name) and fn.id == 'enumerate' and len(args) == 1:
             return [(i, v) for i, v in enumerate(self.seq(args[0]))]
+        if norm(fn) in ('struct.unpack', 'struct.unpack_from', 'struct.calcsize') and 'struct' not in env and args and isinstance(args[0], (str, bytes)):
+            if fn.attr == 'calcsize':
+                import struct as _struct
+                return _struct.calcsize(args[0])
+            return self.apply(('structmethod', args[0], fn.attr), args[1:], kwargs)
+        if isinstance(fn, ast.Name) and fn.id == 'zip' and 'zip' not in env and 'zip' not in h.hooks and args and not kwargs:
+            return list(zip(*[self.seq(a_) for a_ in args]))        # (eager: the sequences of the model are finite)
         if isinstance(fn, ast.Attribute) and fn.attr in ('append', 'remove', 'insert', 'index', 'pop', 'extend', 'clear', 'format', 'count'):
             base = self.ev(fn.value, env, cls)
             if h.is_list(base):
                 items = h.items(base)
                 if fn.attr == 'count' and len(args) == 1:
                     return len([x for x in items if self.same_value(x, args[0])])
+                ml_ = h.objs[base.name].get('#maxlen')
                 if fn.attr == 'append':
                     h.touch(base.name)
                     items.append(args[0])
+                    if ml_ is not None:
+                        del items[:max(0, len(items) - ml_)]        # a bounded queue drops what no longer fits, from the left
                     return None
                 if fn.attr == 'extend':
                     h.touch(base.name)
                     items.extend(self.seq(args[0]))
+                    if ml_ is not None:
+                        del items[:max(0, len(items) - ml_)]
                     return None
+
                 if fn.attr == 'insert':
                     h.touch(base.name)
                     items.insert(args[0], args[1])
@@ -1288,8 +1456,25 @@ class Interp:
                     return items.pop(args[0] if args else -1)
             if isinstance(base, str) and fn.attr == 'format' and getattr(h, 'symbolic_strings', False):
                 return self.sym_format_braces(base, args, kwargs)
-            if isinstance(base, str):
-                return 'text'
+            if isinstance(base, str) and fn.attr in ('count', 'index') and all(isinstance(a_, (str, int)) for a_ in args) and not kwargs:
+                try:
+                    return getattr(base, fn.attr)(*args)          # of a decided text: CPython's own str decides
+                except ValueError:
+                    raise Raised('ValueError', h.version, e.lineno)
+            if isinstance(base, str) and fn.attr == 'format':
+                try:
+                    if all(isinstance(a_, (str, int)) for a_ in list(args) + list(kwargs.values())):
+                        return base.format(*args, **kwargs)
+                except (IndexError, KeyError, ValueError):
+                    pass
+                return 'text'          # (a message: its content is not looked at)
+        if isinstance(fn, ast.Name) and fn.id in h.module.classes and any(isinstance(b_, ast.Name) and b_.id == 'dict' for b_ in h.module.classes[fn.id].bases) \
+                and h.module.method(fn.id, '__init__') is None and not args and not kwargs:
+            # a subclass of dict without constructor of its own: a dictionary of the model that remembers its class (its methods --
+            # __missing__ -- are looked up there)
+            d_ = h.new_dict()
+            h.objs[d_.name]['#subclass'] = fn.id
+            return d_
         if isinstance(fn, ast.Name) and fn.id in h.module.classes:
             ref = h.alloc(fn.id)
             init = h.module.method(fn.id, '__init__')
@@ -1381,7 +1566,29 @@ class Interp:
             if isinstance(r, list):
                 return h.new_list(r)
             return r
+        if isinstance(f, tuple) and len(f) == 3 and f[0] == 'structmethod':
+            return self.apply(f, args, kwargs)
+        if isinstance(f, tuple) and len(f) == 3 and f[0] == 'boundmethod' and not (isinstance(fn, ast.Attribute) and fn.attr == f[2]):
+            return self.apply(f, args, kwargs)
         raise AnalysisError('heap model: call %s' % norm(e)[:60])
+
+    def obj_getattr(self, base, attr, cls):
+        """attribute of an object; a name that the object, its class and the class's tables do not have goes to the class's own
+        __getattr__ (Python's rule)"""
+        h = self.h
+        try:
+            return h.getattr(base, attr, cls)
+        except AnalysisError:
+            if not (isinstance(base, Ref) and h.objs[base.name]['__class__'] in h.module.classes) or (attr.startswith('__') and attr.endswith('__')):
+                raise
+            ga = h.module.method(h.objs[base.name]['__class__'], '__getattr__')
+            if ga is None or getattr(self, '_in_getattr', None) == (base.name, attr):
+                raise
+            self._in_getattr = (base.name, attr)
+            try:
+                return self.call(Closure(ga.node, {}, base, ga.cls), [attr])
+            finally:
+                self._in_getattr = None
 
     def call_accessor(self, home_cls, fnode, ref, args, e):
         """the getter / setter given to property(): a lambda written in the class body, or the name of a method there"""
@@ -1536,6 +1743,31 @@ class Interp:
             call_ = ast.Call(func=ast.Name(id=f[1], ctx=ast.Load()), args=[ast.Name(id='#a%d' % i, ctx=ast.Load()) for i in range(len(args))],
                              keywords=[ast.keyword(arg=k_, value=ast.Name(id='#k_' + k_, ctx=ast.Load())) for k_ in kwargs])
             return self.ev(ast.fix_missing_locations(call_), env_, None)
+        if isinstance(f, tuple) and len(f) == 3 and f[0] == 'unboundmethod':
+            recv_ = args[0].concrete() if isinstance(args[0], SStr) else args[0]
+            want_ = str if f[1] == 'str' else bytes
+            if isinstance(recv_, Key):
+                recv_ = recv_.spelling
+            if not isinstance(recv_, want_):
+                raise AnalysisError('heap model: %s.%s on %r' % (f[1], f[2], args[0]))
+            r_ = getattr(recv_, f[2])(*args[1:], **kwargs)
+            return h.new_list(r_) if isinstance(r_, list) else r_
+        if isinstance(f, tuple) and len(f) == 3 and f[0] == 'structmethod':
+            import struct as _struct
+            if not all(isinstance(a_, (bytes, int)) for a_ in list(args) + list(kwargs.values())):
+                raise AnalysisError('heap model: struct %s on undecided values' % f[2])
+            try:
+                return tuple(getattr(_struct.Struct(f[1]), f[2])(*args, **kwargs)) if f[2] != 'pack' else _struct.Struct(f[1]).pack(*args)
+            except _struct.error:
+                raise Raised('struct.error', h.version, 0)
+        if isinstance(f, tuple) and len(f) == 3 and f[0] == 'boundmethod':
+            env_ = {'#recv': f[1]}
+            env_.update(('#a%d' % i, a) for i, a in enumerate(args))
+            env_.update(('#k_' + k_, v_) for k_, v_ in kwargs.items())
+            call_ = ast.Call(func=ast.Attribute(value=ast.Name(id='#recv', ctx=ast.Load()), attr=f[2], ctx=ast.Load()),
+                             args=[ast.Name(id='#a%d' % i, ctx=ast.Load()) for i in range(len(args))],
+                             keywords=[ast.keyword(arg=k_, value=ast.Name(id='#k_' + k_, ctx=ast.Load())) for k_ in kwargs])
+            return self.ev(ast.fix_missing_locations(call_), env_, None)
         if isinstance(f, tuple) and len(f) == 2 and f[0] == 'itemgetter':
             sub_ = ast.Subscript(value=ast.Name(id='#a0', ctx=ast.Load()), slice=ast.Name(id='#k', ctx=ast.Load()), ctx=ast.Load())
             return self.ev(ast.fix_missing_locations(sub_), {'#a0': args[0], '#k': f[1]}, None)
@@ -1567,7 +1799,7 @@ class Interp:
             if hk is not None:
                 return hk(self, list(args), kwargs)
             if getattr(h, 'native_regex', False) and meth in ('search', 'match', 'fullmatch') and args \
-                    and all(isinstance(a_, (str, int)) or (isinstance(a_, SStr) and a_.concrete() is not None) for a_ in args):
+                    and all(isinstance(a_, (str, int, bytes)) or (isinstance(a_, SStr) and a_.concrete() is not None) for a_ in args):
                 # decided text under a heap that lets CPython's regex engine decide: the Match object itself (groups are read later)
                 import re as _re
                 return getattr(_re.compile(rxv[2], rxv[3]), meth)(*[a_.concrete() if isinstance(a_, SStr) else a_ for a_ in args], **kwargs)
@@ -1844,10 +2076,13 @@ class Interp:
             return ('return', self.ev(st.value, env, cls) if st.value is not None else None)
         if isinstance(st, (ast.Import, ast.ImportFrom)):
             # an import inside a function binds names: a name the scenario hooks is that hook, anything else an opaque value
+            modelled = ('itertools', 'functools', 'operator', 'collections', 're', 'io', 'copy', 'string', 'sys')
             for a_ in st.names:
                 nm_ = a_.asname or a_.name.split('.')[0]
                 if nm_ in h.hooks:
                     env[nm_] = ('hook', nm_)
+                elif a_.asname is None and ((isinstance(st, ast.Import) and a_.name in modelled) or (isinstance(st, ast.ImportFrom) and st.module in modelled)):
+                    pass            # a name of a module the interpreter knows (itertools.dropwhile ...): read where it is used
                 else:
                     env[nm_] = ('extern', '%s.%s' % (getattr(st, 'module', None) or '', a_.name))
             return None
@@ -1992,6 +2227,8 @@ class Interp:
                     h.items(base)[k] = self.seq(value)      # xs[i:j] = ys: the items of ys in place of the range
                 else:
                     h.items(base)[k] = value
+            elif isinstance(base, Ref) and '__setitem__' in h.hooks and h.objs[base.name]['__class__'] not in ('dict', 'list'):
+                h.hooks['__setitem__'](self, [base, self.ev(t.slice, env, cls), value], {'lineno': getattr(t, 'lineno', 0)})      # the scenario's own store
             elif isinstance(base, Ref) and h.objs[base.name]['__class__'] in h.module.classes \
                     and h.module.method(h.objs[base.name]['__class__'], '__setitem__') is not None:
                 si = h.module.method(h.objs[base.name]['__class__'], '__setitem__')
